@@ -2,7 +2,8 @@
 from the Rust sources under /repo/src/functions - done at check time, so the checks always see the current tree."""
 import glob, os, re
 
-SRC = "/repo/src/functions"
+import os
+SRC = os.environ.get("VERIF_DEV_REPO", "/repo") + "/src/functions"
 
 
 def _read_str(s, i):
